@@ -287,6 +287,21 @@ func cmdCheck(id string, args []string) int {
 			refs = append(refs, vecRef{"known", r, nil, v})
 		}
 	}
+	// counterexamples of deadlocks never return natively: they go last, one TIMEOUT ends the native run
+	{
+		var v2 []NativeVector
+		var r2 []vecRef
+		for pass := 0; pass < 2; pass++ {
+			for i := range vecs {
+				dl := refs[i].v != nil && refs[i].v.Kind == "deadlock"
+				if dl == (pass == 1) {
+					v2 = append(v2, vecs[i])
+					r2 = append(r2, refs[i])
+				}
+			}
+		}
+		vecs, refs = v2, r2
+	}
 	var inconclusive []string
 	validated, mismatches := 0, 0
 	confirmed := map[*Violation]bool{}
@@ -511,6 +526,9 @@ func nativeConfirms(v *Violation, nr NativeResult) bool {
 		return false
 	case "panic":
 		return nr.Panic != ""
+	case "deadlock":
+		// natively a deadlock shows as the entry not returning within the replay's per-vector time limit
+		return nr.Panic == "TIMEOUT"
 	case "alloc":
 		// allocation-size conditions are decided by the solver; replaying would try to allocate the memory
 		return true
